@@ -3,6 +3,7 @@ import AcryoVerif.Model.Crop
 import AcryoVerif.Model.Search
 import AcryoVerif.Model.Wedge
 import AcryoVerif.Model.Lowpass
+import AcryoVerif.Gen.Align
 
 /-! Dispatch of hand-written model operations for the line-protocol driver. -/
 namespace Model
@@ -78,6 +79,28 @@ def opBw (K : BwKernels) (a : Array Rat) : String :=
 def opLpShape (K : BwKernels) (a : Array Rat) : String :=
   Canon.canon (i a 0, i a 1, K.outLastLen (i a 2))
 
+/-- `mesh maxima mid m w` → `lo hi firstNode`. -/
+def opMesh (a : Array Rat) : String :=
+  let (lo, hi) := Gen.meshBounds (i a 0) (i a 1) a[2]!
+  Canon.canon (lo, hi, Gen.meshNode lo (i a 0) (i a 3))
+
+/-- `pccCrop l r N` → original indices kept by `crop_by_max_shifts`, in output order. -/
+def opPccCrop (a : Array Rat) : String :=
+  let N := i a 2
+  let (_, lo, hi) := Gen.pccCropBounds (i a 0) (i a 1) N
+  let L := hi - lo
+  let out : List Int := (List.range L.toNat).map fun (t : Nat) =>
+    let k : Int := lo + ((t : Int) + L / 2) % L          -- ifftshift of the cropped window
+    (k - N / 2) % N                                  -- fftshift of the full array
+  Canon.canon out
+
+/-- `znccShape m0 m1 m2` → sides of ncc_landscape and of the two cropped landscapes. -/
+def opZnccShape (a : Array Rat) : String :=
+  let full := [0, 1, 2].map fun k => 2 * Gen.paddingWidth a[k]! - 1
+  let c1 := [0, 1, 2].map fun k => (2 * Gen.paddingWidth a[k]! - 1) - 2 * Gen.padWidthEff1 a[k]! (2 * Gen.paddingWidth a[k]! - 1)
+  let c0 := [0, 1, 2].map fun k => (2 * Gen.paddingWidth a[k]! - 1) - 2 * Gen.padWidthEff0 a[k]! (2 * Gen.paddingWidth a[k]! - 1)
+  " ".intercalate ((full ++ c1 ++ c0).map Canon.canon)
+
 def dispatch (name : String) (a : Array Rat) : Option String :=
   match name with
   | "prepAffine" => some (flat (opPrepAffine a))
@@ -96,6 +119,9 @@ def dispatch (name : String) (a : Array Rat) : Option String :=
   | "lpShape_backend" => some (opLpShape bwBackend a)
   | "lpGuard_utils" => some (Canon.canon (Gen.lpGuardUtils_lp a[0]! a[1]!))
   | "lpGuard_backend" => some (Canon.canon (Gen.lpGuardBackend_lp a[0]! a[1]!))
+  | "mesh" => some (opMesh a)
+  | "pccCrop" => some (opPccCrop a)
+  | "znccShape" => some (opZnccShape a)
   | _ => none
 
 end Model
